@@ -214,6 +214,17 @@ CHECKS["C20"] = dict(
     design_ref="6/C20",
     technique="TLA+ semantic function (ConfigSem.tla) + TLC-sampled scenario family + TLC validation of declared-vs-built facts and of re-serialised variants' trajectories",
 )
+CHECKS["C09"] = dict(
+    category="model_checking",
+    text="ObsEncoding.tla (shared with C02): `EncodeSet` = per leaf-group kind and field the admissible encoded values as the documentation gives them (visible vs "
+    "actual health selected by the scenario's requires-scan options; absent / deleted / uninstalled components and every component of a node that is not ON read as the "
+    "default; thresholded counts to categories; load to bands; ACL slot k = k-th position; folder health under requires-scan as a leaf with memory - the value at the "
+    "last scan the observation has seen). TLC enumerates the complete component domain (62,679 states). Every generator state is driven through the real observation "
+    "classes, and on shipped scenarios and option variants the ground truth for every leaf of every observation of every step is read DIRECTLY from simulator objects "
+    "(never from describe_state()) and compared by TLC with the encoding (ObsEncodingTrace.tla); leaves with memory (NMNE, folder scan) carry the previous truth in the event.",
+    design_ref="6/C09",
+    technique="TLA+ encoding model (ObsEncoding.tla) enumerated by TLC + ground truth read from simulator objects for every observation leaf + TLC validation",
+)
 
 REASON_TODO = "check not built yet in this session (planned, see DESIGN.md 10); nothing is claimed for it"
 
